@@ -1,4 +1,5 @@
 import Driver.Stream
+import Obao.Model.PKIReport
 import Obao.Model.PKIRevoke
 import Obao.Model.PKIRevokeConc
 /-! Stateful stream `pkirevoke` (C16).  Ops (tab-separated fields):
@@ -320,6 +321,36 @@ def step (s : St) (fs : List String) : St × String :=
         if r = .badOp then (s, "bad-op") else (applySteps s p, showRes r)
     | some cut => if cuttable op then runCut s (fun o1 o2 => prog s o1 o2 op) cut else (s, "bad-op")
 
+/-! stream `pkiscen`: directed scenarios at predicate level; the answer is what the property demands, computed from the
+write-level model `Obao.PKIReport` where a fault position is involved -/
+/-- the state after the call and, if it failed, its fault-free retry; whether one of them succeeded -/
+def afterRetry (r1 r2 : Obao.PKIReport.S × Bool) : String × Obao.PKIReport.S :=
+  if r1.2 then ("ok", r1.1) else ((if r2.2 then "ok" else "err"), r2.1)
+
+def stepScen (u : Unit) (fs : List String) : Unit × String :=
+  match fs with
+  | ["scen", "issrev", k] =>
+    match k.toNat? with
+    | some k =>
+      let r1 := Obao.PKIReport.issuerRevoke {} k
+      let (fr, s) := afterRetry r1 (Obao.PKIReport.issuerRevoke r1.1 0)
+      (u, fr ++ (if s.entry then "|cert:revoked|ocsp:revoked" else "|cert:good|ocsp:good") ++ (if s.crl then "|crl:listed" else "|crl:absent"))
+    | none => (u, "bad-op")
+  | ["scen", "cfgcrl", _what, k] =>
+    match k.toNat? with
+    | some k =>
+      let r1 := Obao.PKIReport.configCRL { entry := true } k
+      let (fr, s) := afterRetry r1 (Obao.PKIReport.configCRL r1.1 0)
+      (u, fr ++ (if s.crl then "|crl:listed" else "|crl:absent"))
+    | none => (u, "bad-op")
+  -- a revoked, unexpired certificate is reported revoked by every channel (`C16.revoked_everywhere`), whichever
+  -- member of its issuer set it is associated with and whatever is imported later; pagination returns every serial
+  | ["scen", "equiv"] => (u, "cert:revoked|ocsp:revoked|crl:listed")
+  | ["scen", "impiss"] => (u, "cert:revoked|crl:listed|other:kept")
+  | ["scen", "page", _limit] => (u, "all")
+  | _ => (u, "bad-op")
+
 def streams : List (String × Driver.Stream) :=
-  [("pkirevoke", { σ := St, init := Obao.PKIRevoke.init, step := step })]
+  [("pkirevoke", { σ := St, init := Obao.PKIRevoke.init, step := step }),
+   ("pkiscen", { σ := Unit, init := (), step := stepScen })]
 end Driver.PKIRevoke
